@@ -637,3 +637,10 @@ Definition prop_full_ok (m : mode) (script : list pscript)
     | Some (k, e) => list_eqb item_eqb obs_items_ (spec_error_stream (script_pages script) k e)
     | None => true
     end.
+
+Definition prop_drop_ok (m : mode) (script : list pscript)
+           (obs_items_ : list item) (obs_keys : list (nat * option pstate)) : bool :=
+  if good_script m script then
+    is_prefix item_eqb obs_items_ (spec_stream (script_pages script)) &&
+    is_prefix key_eqb obs_keys (spec_requests m script)
+  else true.
